@@ -240,11 +240,15 @@ def cases(tier, seed):
                 if any(s.startswith("hem") for s in seq[:-1]):
                     continue
                 out.append({"what": "chain", "start": "Cylinder", "steps": list(seq), "frame": fr})
+                if k == 1 or (k == 2 and tier == "thorough"):
+                    out.append({"what": "chain", "start": "Cylinder", "steps": list(seq), "frame": fr, "pre": "mirror"})
         for k in range(1, depth + 1):
             for seq in itertools.product(RING_STEPS, repeat=k):
                 if "ring_fill" in seq[:-1]:
                     continue
                 out.append({"what": "chain", "start": "ExtrudedRing8", "steps": list(seq), "frame": fr})
+                if k == 1 or (k == 2 and tier == "thorough"):
+                    out.append({"what": "chain", "start": "ExtrudedRing8", "steps": list(seq), "frame": fr, "pre": "mirror"})
     return out
 
 
@@ -442,6 +446,9 @@ def run_chain(case):
         shapes = [cb.Cylinder(P(fr, [0, 0, 0]), P(fr, [0, 0, 1.0]), P(fr, [0.5, 0, 0]))]
     else:
         shapes = [cb.ExtrudedRing(P(fr, [0, 0, 0]), P(fr, [0, 0, 0.8]), P(fr, [1.0, 0, 0]), 0.5, 8)]
+    if case.get("pre") == "mirror":
+        # the first shape is mirrored about a skew plane off the origin before anything is chained to it
+        shapes[0].mirror(list(V(fr, [0.4, -0.2, 1.0])), list(P(fr, [0.3, 0.1, -0.4])))
     # chaining alternately from the end / start of the *first* shape would collide: every step chains to the
     # most recent shape created in that direction
     head = shapes[0]  # last shape in the forward direction
@@ -545,6 +552,13 @@ def run_chain(case):
                     j = int(np.argmin(d))
                     if d[j] < 1e-6:
                         want.add(mesh.vertices[j].index)
+            # ... and continues on the far side of the interface, not back into its source
+            c_if = np.mean([p for f in sk.faces for p in f.point_array], axis=0)
+            c_src = np.mean([np.asarray(v.position) for op in src.operations for v in op_block[id(op)].vertices], axis=0)
+            c_new = np.mean([np.asarray(v.position) for op in new.operations for v in op_block[id(op)].vertices], axis=0)
+            out_dir = (c_if - c_src) / np.linalg.norm(c_if - c_src)
+            if float((c_new - c_if) @ out_dir) <= 0:
+                bad("chained-shape-inside-its-source", f"{type(src).__name__}->{type(new).__name__} ({where}): the new shape's centre lies {float((c_new - c_if) @ out_dir):.3f} along the direction source -> interface (it should be ahead of the interface)")
             if shared != want:
                 bad("chain-interface-vertices", f"{type(src).__name__}->{type(new).__name__} ({where}): shares {len(shared)} vertices, interface sketch has {len(want)}; symmetric difference {sorted(shared ^ want)[:8]}")
         else:
